@@ -1,5 +1,5 @@
 (* C10 -- Blurring, edge and border pixel sets match their definitions for every mask.
-   Statements only; every proof is [exact <lemma of Proofs/C10.v or Proofs/C10b.v>].
+   Statements only; every proof is [exact <lemma of Proofs/C10.v, C10b.v, C10c.v or C10d.v>].
    The statements are about the executable model of Model/C10.v Part 2 (blurring_mask_2d_from, blurring_from,
    check_if_edge_pixel, edge_1d_indexes_from = edge_slim, border_slim_indexes_from = border_slim, edge_native,
    border_native, mask_edge, mask_border, mask_edge_buffed, grid_edge, grid_border, blurring_grid_from), which the
@@ -7,7 +7,7 @@
    A mask is a list of rows, [true] = masked; [get m y x] reads m[y, x]; slim index k denotes
    [pixel_of_slim m k], the k-th unmasked pixel in row-major order. *)
 From Coq Require Import ZArith List Bool.
-From PAV Require Import Base.Res Base.Check Model.C10 Proofs.C10 Proofs.C10b Proofs.C10c.
+From PAV Require Import Base.Res Base.Check Model.C10 Proofs.C10 Proofs.C10b Proofs.C10c Proofs.C10d.
 Import ListNotations.
 Local Open Scope Z_scope.
 
@@ -158,10 +158,77 @@ Theorem C10_buffed_spec_meaning : forall m bf y x, 0 <= y < shape0 m /\ 0 <= x <
    exists y' x', (0 <= y' < shape0 m /\ 0 <= x' < shape1 m) /\ get m y' x' = false /\ Z.abs (y - y') <= bf /\ Z.abs (x - x') <= bf).
 Proof. exact buffed_spec_exact. Qed.
 
+(* ---------------------------------------------------------------------------------------------- histories *)
+(* Objects that are edited in place (obj[y, x] = v), copied, derived from one another and read again (Model/C10.v
+   Part 5).  The state of a history is the list of the objects' contents; [state_after steps i] is the state reached by
+   the first i steps; reads change nothing.  A history agrees with the implementation iff EVERY read shows the contents
+   the object has at that moment and returns the single-operation model function of those contents, and every derived
+   Mask2D is the model function of its source's current contents: nothing is remembered from an earlier read. *)
+Theorem C10_hist_agree_iff : forall steps,
+  agree (KHist steps) = true <->
+  forall i, match nth_error steps i with
+            | Some (HRead o k) => case_mask k = contents (state_after steps i) o /\ agree1 k = true
+            | Some (HDerive o d out) => derive (contents (state_after steps i) o) d = Ok out
+            | _ => True
+            end.
+Proof. exact hist_agree_iff. Qed.
+(* hence every read of an agreeing history is accepted by the specification on the CURRENT contents ... *)
+Theorem C10_hist_reads_accepted : forall steps, agree (KHist steps) = true ->
+  forall i o k, nth_error steps i = Some (HRead o k) ->
+  case_mask k = contents (state_after steps i) o /\ agree1 k = true /\ spec_ok1 k = true.
+Proof. exact hist_reads_accepted. Qed.
+(* ... and a full read of the views returns the views of the current contents c (to which C10_views_agree_edge /
+   C10_views_agree_border, C10_edge_slim_exact, C10_border_exact apply: all views denote the same pixels of c) *)
+Theorem C10_hist_views_current : forall steps, agree (KHist steps) = true ->
+  forall i o m g v, nth_error steps i = Some (HRead o (KViews m g v)) ->
+  let c := contents (state_after steps i) o in
+  m = c /\ v_edge_slim v = edge_slim c /\ v_edge_native v = edge_native c /\ v_border_slim v = border_slim c
+  /\ v_border_native v = border_native c /\ v_mask_edge v = mask_edge c /\ v_mask_border v = mask_border c
+  /\ v_mask_buffed v = mask_edge_buffed c /\ v_grid_edge v = grid_edge c g /\ v_grid_edge_mask v = mask_edge c
+  /\ v_grid_border v = grid_border c g /\ v_grid_border_mask v = mask_border c.
+Proof. exact hist_views_current. Qed.
+(* the general form: a history is accepted iff every step is accepted on the state reached by the steps before it *)
+Theorem C10_hist_ok_stepwise : forall P D steps st,
+  hist_ok P D st steps = true <->
+  forall i s, nth_error steps i = Some s -> step_ok P D (fold_left step_state (firstn i steps) st) s = true.
+Proof. exact hist_ok_iff. Qed.
+(* reading changes nothing: partial reads can be removed from a history without changing its verdict *)
+Theorem C10_hist_reads_change_nothing : forall P D steps st,
+  hist_ok P D st (filter (fun s => negb (is_touch s)) steps) = hist_ok P D st steps.
+Proof. exact hist_ok_drop_touch. Qed.
+Theorem C10_hist_read_keeps_state : forall st o k, step_state st (HRead o k) = st.
+Proof. exact read_keeps_state. Qed.
+(* an edit changes the edited object only, and there exactly one entry (numpy's negative indices included) *)
+Theorem C10_hist_edit_contents : forall st o y x v o', (o < length st)%nat ->
+  contents (step_state st (HEdit o y x v)) o' = if Nat.eqb o' o then set (contents st o) y x v else contents st o'.
+Proof. exact edit_contents. Qed.
+Theorem C10_edit_entries : forall b y x v y' x', rectb b = true ->
+  - shape0 b <= y < shape0 b -> - shape1 b <= x < shape1 b -> (0 <= y' < shape0 b /\ 0 <= x' < shape1 b) ->
+  get (set b y x v) y' x' = if (norm (shape0 b) y =? y') && (norm (shape1 b) x =? x') then v else get b y' x'.
+Proof. exact get_set_wrap. Qed.
+Theorem C10_edit_keeps_shape : forall b y x v, rectb b = true -> - shape0 b <= y < shape0 b -> - shape1 b <= x < shape1 b ->
+  shape0 (set b y x v) = shape0 b /\ shape1 (set b y x v) = shape1 b /\ rectb (set b y x v) = true.
+Proof. exact set_keeps_shape. Qed.
+(* a copy is independent of its original, in both directions *)
+Theorem C10_hist_copy_then_edit_copy : forall st o y x v, (o < length st)%nat ->
+  let st2 := step_state (step_state st (HCopy o)) (HEdit (length st) y x v) in
+  contents st2 o = contents st o /\ contents st2 (length st) = set (contents st o) y x v.
+Proof. exact copy_then_edit_copy. Qed.
+Theorem C10_hist_copy_then_edit_original : forall st o y x v, (o < length st)%nat ->
+  let st2 := step_state (step_state st (HCopy o)) (HEdit o y x v) in
+  contents st2 (length st) = contents st o /\ contents st2 o = set (contents st o) y x v.
+Proof. exact copy_then_edit_original. Qed.
+(* the Mask2D objects derived through the public API (edge, border, edge_buffed, blurring, invert) are the
+   specification's masks of the source contents *)
+Theorem C10_derived_masks_are_spec : forall c d out, derive_agree c d out = true -> derive_spec_ok c d out = true.
+Proof. exact derive_agree_spec. Qed.
+
 (* ---------------------------------------------------------------------------------------------- the correspondence test *)
 (* the specification's acceptance test accepts every output of the model, for every operation of the correspondence
-   run: whenever the implementation's output equals the model's, the specification accepts it; so a non-zero verdict
-   always means "implementation <> model" and verdict 0 means exactly "implementation = model" *)
+   run and along every history: whenever the implementation's output equals the model's, the specification accepts it;
+   so a non-zero verdict always means "implementation <> model" and verdict 0 means exactly "implementation = model" *)
+Theorem C10_spec_accepts_model_op : forall k : case1, agree1 k = true -> spec_ok1 k = true.
+Proof. exact agree1_implies_spec_ok1. Qed.
 Theorem C10_spec_accepts_model : forall k : case, agree k = true -> spec_ok k = true.
 Proof. exact agree_implies_spec_ok. Qed.
 Theorem C10_check_zero_iff_agree : forall k : case, check k = 0%nat <-> agree k = true.
@@ -194,6 +261,17 @@ Example C10_hyps_satisfiable :
                                          (-6, 3); (-6, 5); (-6, 7); (-6, 9)].
 Proof. vm_compute. repeat split. Qed.
 
+(* a history: object 0 is read, edited in place, read again; then copied, the copy edited (negative indices) and both
+   read.  The recorded values are what /repo returned.  A stale second read (the old views on the new contents) and an
+   aliased copy (the copy's edit visible in the original) are both rejected, by the model and by the specification. *)
+Example C10_hist_example :
+  agree (KHist ex_hist) = true /\ spec_ok (KHist ex_hist) = true
+  /\ contents (state_after ex_hist 3) 0%nat = ex_m1 /\ contents (state_after ex_hist 6) 0%nat = ex_m1
+  /\ contents (state_after ex_hist 6) 1%nat = ex_m2
+  /\ edge_slim ex_m0 = [0] /\ edge_slim ex_m1 = [0; 1] /\ edge_native ex_m2 = [(1, 0)]
+  /\ check (KHist ex_hist_stale) = 2%nat /\ check (KHist ex_hist_alias) = 2%nat.
+Proof. vm_compute. repeat split. Qed.
+
 Print Assumptions C10_blurring_util_is_spec. Print Assumptions C10_blurring_from_is_spec.
 Print Assumptions C10_blurring_exact. Print Assumptions C10_blurring_error_iff_footprint_leaves.
 Print Assumptions C10_blurring_ok_iff_footprints_inside. Print Assumptions C10_blurring_result_or_mask_exception.
@@ -210,3 +288,8 @@ Print Assumptions C10_mask_edge_entries. Print Assumptions C10_mask_border_entri
 Print Assumptions C10_build_entries. Print Assumptions C10_memp_meaning.
 Print Assumptions C10_edge_buffed_is_spec. Print Assumptions C10_buffed_util_is_spec. Print Assumptions C10_buffed_spec_meaning.
 Print Assumptions C10_spec_accepts_model. Print Assumptions C10_check_zero_iff_agree.
+Print Assumptions C10_hist_agree_iff. Print Assumptions C10_hist_reads_accepted. Print Assumptions C10_hist_views_current.
+Print Assumptions C10_hist_ok_stepwise. Print Assumptions C10_hist_reads_change_nothing. Print Assumptions C10_hist_read_keeps_state.
+Print Assumptions C10_hist_edit_contents. Print Assumptions C10_edit_entries. Print Assumptions C10_edit_keeps_shape.
+Print Assumptions C10_hist_copy_then_edit_copy. Print Assumptions C10_hist_copy_then_edit_original.
+Print Assumptions C10_derived_masks_are_spec. Print Assumptions C10_spec_accepts_model_op.
